@@ -951,6 +951,10 @@ func execHash(body json.RawMessage) *kernel.Result {
 			kv := fmt.Sprintf("ks%d", accN)
 			ev(fmt.Sprintf("(def %s (keys %s)) (cond (> (len %s) 0) (aset %s 0 (aget %s (- (len %s) 1))) nil)", kv, H, kv, kv, kv, kv))
 			ev(fmt.Sprintf("(set %s (append %s (aget %s 0)))", kv, kv, kv))
+			// and so do the keys in it: an array key handed out by keys, hpair or range is the caller's copy
+			ev(fmt.Sprintf("(range kq vq %s (cond (array? kq) (cond (> (len kq) 1) (aset kq 0 424242) nil) nil))", H))
+			ev(fmt.Sprintf("(def %sb (keys %s)) (for [(def iq 0) (< iq (len %sb)) (def iq (+ iq 1))] (let [kq (aget %sb iq)] (cond (array? kq) (cond (> (len kq) 1) (aset kq 0 424243) nil) nil)))", kv, H, kv, kv))
+			ev(fmt.Sprintf("(cond (> (len %s) 0) (let [kq (first (hpair %s 0))] (cond (array? kq) (cond (> (len kq) 1) (aset kq 0 424244) nil) nil)) nil)", H, H))
 			res.Probe("keys-list-mutated")
 		}
 		sig(op.Op)
